@@ -820,11 +820,11 @@ func (g *gen2) stmt(d int) []byte {
 		case 1: // a value-producing expression in dead code, dropped
 			dead = c.Cat([]byte{0x0c, 0x00}, g.e(t, d-1), []byte{0x1a}, g.stmts(d-1, 1))
 		default: // never taken: if (0) { return / unreachable; dead }
+			g.push(nil, false) // the `if`: everything generated for its body must see its label
 			inner := c.Cat(g.values(g.fn.sig.R, d-1), []byte{0x0f})
 			if g.r.Bool() {
 				inner = []byte{0x00}
 			}
-			g.push(nil, false)
 			inner = c.Cat(inner, g.stmts(d-1, 1+g.r.Intn(2)))
 			g.pop()
 			dead = c.Cat(c.I32Const(0), []byte{0x04, 0x40}, inner, []byte{0x0b})
